@@ -1,8 +1,8 @@
 #!/bin/bash
 # seeds.sh "<seeds>" [tier]: every check on the unchanged tree under several VERIF_SEED values; any non-zero exit is listed.
-tier=${2:-quick}; out=/tmp/seeds_$tier.log; : > $out
+tier=${2:-quick}; V=$(cd "$(dirname "$0")/.." && pwd); export V; out=$V/selftest/SEEDS_$tier.log; : > $out
 for seed in $1; do
   for p in C01 C02 C03 C04 C05 C06 C07 C08 C09 C10 C11 C12 C13 C14 C15 C16 C17 C18 C19; do
     echo "$seed $p"
   done
-done | xargs -P 2 -L 1 bash -c 'cd /verif; VERIF_SEED=$0 /venv/bin/python harness/check.py $1 --tier '$tier' > /tmp/seed_$0_$1.log 2>&1; echo "seed=$0 $1 exit=$? $(grep -c "^KNOWN-FINDING" /tmp/seed_$0_$1.log) known $(grep "^VIOLATION\|MACHINERY" /tmp/seed_$0_$1.log | head -1 | cut -c1-120)"' | tee -a $out
+done | xargs -P 2 -L 1 bash -c 'cd $V; VERIF_SEED=$0 /venv/bin/python harness/check.py $1 --tier '$tier' > /tmp/seed_$0_$1.log 2>&1; echo "seed=$0 $1 exit=$? $(grep -c "^KNOWN-FINDING" /tmp/seed_$0_$1.log) known $(grep "^VIOLATION\|MACHINERY" /tmp/seed_$0_$1.log | head -1 | cut -c1-120)"' | tee -a $out
